@@ -25,6 +25,7 @@ fn main() {
     bridge::install_panic_hook();
     let code = match prop.as_str() {
         "C01" | "C04" | "C07" | "C08" | "C15" => p_values::run(&prop, &tier, only),
+        "C03" => p_evo::run(&tier, only),
         "list" => {
             let u = common::load();
             for e in &u.entries {
